@@ -7,6 +7,7 @@ import (
 
 	proto "github.com/kubewharf/kubebrain-client/api/v2rpc"
 
+	"github.com/kubewharf/kubebrain/pkg/backend/tso"
 	"github.com/kubewharf/kubebrain/pkg/zzmodel"
 	"github.com/kubewharf/kubebrain/pkg/zzverif"
 )
@@ -35,13 +36,20 @@ type vEvent struct {
 
 var vBases = []uint64{5, 99998, 1<<40 + 7, 1<<63 - 3}
 
-func vNewWorld(nkeys int) *vWorld {
+func vNewWorld(nkeys int) *vWorld { return vNewWorldTSO(nkeys, nil) }
+
+// vNewWorldTSO is vNewWorld with the revision generator wrapped from the start.
+func vNewWorldTSO(nkeys int, wrap func(tso.TSO) tso.TSO) *vWorld {
 	base := vBases[zzverif.Choose("base", zzverif.Param("bases", 1))]
 	s := zzmodel.NewStore()
 	s.LooseReverseFirst = zzverif.Bool("looseReverse")
 	s.BareCASError = zzverif.Bool("bareCAS")
 	w := &vWorld{s: s, g: zzmodel.NewGhost(), nkeys: nkeys, base: base, dealt: base}
-	w.b = vNewBackend(s, base, zzverif.Param("cache", 8))
+	if wrap != nil {
+		w.b = vNewBackendTSO(s, base, zzverif.Param("cache", 8), wrap)
+	} else {
+		w.b = vNewBackend(s, base, zzverif.Param("cache", 8))
+	}
 	return w
 }
 
